@@ -60,6 +60,7 @@ type scenario struct {
 	Cool    int
 	Clients map[string]string // client -> host (documentation only; calls name their host)
 	Tick    int
+	ReleaseHeavy bool
 }
 
 type drv struct {
